@@ -3,6 +3,7 @@ import concurrent.futures as cf
 import datetime as dt
 import importlib
 import json
+import os
 import logging
 import random
 import subprocess
@@ -224,6 +225,41 @@ def run(tier):
             render_and_read_back(v, old_data, work, tot, tag="render-sub-minute")
     except Exception as e:  # noqa  machinery: the generator itself is judged in the workers
         v.inconclusive_because("sub-minute rendering set could not be collected: %r" % (e,))
+    # the generators as they are used: test_data_generator.py as a script, zone names on stdin (with comment and blank lines),
+    # validation_data.json out. Every zone given that the library resolves must be in the file with exactly the items the
+    # generator class yields for it (those are judged above); the stated range and flags must be the ones asked for.
+    e2e_zones = ["America/Los_Angeles", "Europe/London", "EST5EDT", "Etc/GMT+5", "Europe/Kiev", "Asia/Pyongyang", "Africa/Casablanca",
+                 "Australia/Lord_Howe", "Etc/UTC", "Pacific/Apia", "America/Caracas", "Asia/Kathmandu"]
+    for lib, known in (("pytz", set(pz)), ("dateutil", set(dz))):
+        odir = work / ("e2e-" + lib)
+        odir.mkdir()
+        stdin_text = "# zones\n\n" + "\n".join("  %s  " % z if i % 3 == 0 else z for i, z in enumerate(e2e_zones)) + "\n\n# end\n"
+        pr = subprocess.run([sys.executable, str(REPO / "tools" / ("compare_" + lib) / "test_data_generator.py"), "--start_year", "2010", "--until_year", "2013",
+                             "--sampling_interval", "20", "--output_dir", str(odir)], input=stdin_text, capture_output=True, text=True, timeout=1800,
+                            cwd=str(REPO / "tools" / ("compare_" + lib)), env={**os.environ, "PYTHONPATH": str(REPO / "tools")})
+        jf = odir / "validation_data.json"
+        if pr.returncode != 0 or not jf.exists():
+            v.violation("c19:generator-script-failed", "test_data_generator.py failed on a plain list of zones", {"lib": lib, "rc": pr.returncode, "stderr": pr.stderr[-400:]})
+            continue
+        vd = json.loads(jf.read_text())
+        mod = importlib.import_module("compare_%s.tdgenerator" % lib)
+        tot["e2e_runs"] = tot.get("e2e_runs", 0) + 1
+        if (vd.get("start_year"), vd.get("until_year")) != (2010, 2013) or vd.get("source") != lib:
+            v.violation("c19:generator-script-header", "validation_data.json does not state the range / source it was asked for", {"lib": lib, "stated": [vd.get("start_year"), vd.get("until_year"), vd.get("source")]})
+        for z in e2e_zones:
+            if z not in known:
+                continue
+            tot["e2e_zones"] = tot.get("e2e_zones", 0) + 1
+            want_items = mod.TestDataGenerator(2010, 2013, 20)._create_test_items_for_zone(z)
+            got_items = vd["test_data"].get(z)
+            if got_items is None or got_items != json.loads(json.dumps(want_items)):
+                v.violation("c19:generator-script-drops-or-alters-zone", "a zone given on stdin is missing from validation_data.json or carries other items than the generator class yields",
+                            {"lib": lib, "zone": z, "in_file": None if got_items is None else len(got_items), "generator_items": None if want_items is None else len(want_items)})
+        extra = set(vd["test_data"]) - set(e2e_zones)
+        if extra:
+            v.violation("c19:generator-script-extra-zone", "validation_data.json holds a zone that was not asked for", {"lib": lib, "zones": sorted(extra)[:5]})
+    if tot.get("e2e_zones", 0) < 16:
+        v.inconclusive_because("the generator scripts were not exercised end to end: %r" % {k: n for k, n in tot.items() if k.startswith("e2e")})
     if tot.get("configs", 0) < 500 or tot.get("library_changes", 0) < 5000 or tot.get("rendered_items", 0) < 5000:
         v.inconclusive_because("deciding counters too low: %r" % tot)
     v.coverage.update({
